@@ -53,9 +53,9 @@ type c40A struct {
 type c40cfg struct {
 	name    string
 	json    bool
-	initial int        // number of sequential saves before the threads start (0 = the key does not exist)
-	threads []string   // save | save2 (two saves of the same struct in a row) | fetchsave (Fetch, change, Save)
-	perThr  bool       // own repository + client session per thread
+	initial int      // number of sequential saves before the threads start (0 = the key does not exist)
+	threads []string // save | save2 (two saves of the same struct in a row) | fetchsave (Fetch, change, Save)
+	perThr  bool     // own repository + client session per thread
 	flusher bool
 	same    bool // every Save starts from the stored version: exactly one must win
 	p       int
